@@ -25,8 +25,9 @@ THEOREMS = ['C20_sem_extensional_body', 'C20_sem_extensional_code', 'C20_sem_ext
             'C20_chain_engine_refines', 'C20_chain_is_concatenation', 'C20_chain_of_two', 'C20_chain_members_interchangeable',
             'C20_chain_member_python_vs_compiled', 'C20_mixed_sources_interchangeable', 'C20_mixed_sources_interchangeable_source', 'C20_python_then_script_is_one_definition',
             'C20_chained_python_predicate_is_first_clauses', 'C20_chain_engine_monotone', 'C20_exception_passthrough_chain_member',
-            'C20_exception_at_the_chain']
-IMPORTS = ['Lang.Ast', 'Sem.Machine', 'Sem.RunSem', 'Sem.Native', 'Sem.RunNative', 'Sem.NativeChain', 'Sem.RunNativeChain']
+            'C20_exception_at_the_chain', 'C20_chain_engine_with_exceptions_refines', 'C20_chain_engine_with_exceptions_built',
+            'C20_chain_exception_provenance', 'C20_chain_exception_unchanged']
+IMPORTS = ['Lang.Ast', 'Sem.Machine', 'Sem.RunSem', 'Sem.Native', 'Sem.RunNative', 'Sem.NativeChain', 'Sem.NativeChainExc', 'Sem.RunNativeChain']
 CASE_TIMEOUT = 30
 COQ_CHUNK = 12
 DEPTH = 30
@@ -644,7 +645,7 @@ def g_mop(case, op):
         return '(MLoad %s %s)' % (ast_io.g_program(progs.number_anons(op[1])), g_bool(bool(op[2])))
     if op[0] == 'reg':
         spec = case['native'][op[1]]
-        return '(MReg %s)' % g_nspec(spec, spec_rows(spec))
+        return '(MReg %d %s)' % (op[1], g_nspec(spec, spec_rows(spec)))      # raises the object XPy <index of the predicate>
     ts, nv = row_terms(progs.number_anons([[op[1], op[2], ['true']]])[0][1])
     return '(MAssert %s %s)' % (g_str(op[1]), g_frow(ts, nv))
 
@@ -657,9 +658,6 @@ def model_expr_mixed(case):
     tw = [g_mop(case, op) for op in twin_ops(case)]
     return '(OL [%s])' % '; '.join('(run_mixed %d %s %s %s %d)' % (DEPTH, g_list(py[:k]), g_list(tw[:k]), g_list(qs), LIMIT) for k in case['rounds'])
 
-def view_plain(m):
-    return {'answers': semcheck.canon_answers(m[0]), 'count': m[1], 'err': bool(m[2])}
-
 def compare_mixed(case, io, mo):
     if any(m and m[0] == 'stuck' for m in mo):
         return 'model compiler stuck'
@@ -670,7 +668,7 @@ def compare_mixed(case, io, mo):
             if pair[0] != pair[1]:
                 return where + 'the rows of a Python predicate %s are not row_of_src of the facts its twin loads %s' % (pair[0], pair[1])
         for q, a0, b0, m in zip(case['queries'], io['Ar'][rnd], io['Br'][rnd], mo[rnd]):
-            mn, mt, mnr = view_plain(m[0]), view_plain(m[1]), view_plain(m[3])
+            mn, mt, mnr = view(m[0]), view(m[1]), view(m[3])
             a, b = a0, b0
             if a0.get('findall_inner') or b0.get('findall_inner'):
                 mn, mt, mnr = [dict(v, answers=anon(v['answers'])) for v in (mn, mt, mnr)]
@@ -689,13 +687,15 @@ def compare_mixed(case, io, mo):
             if b['answers'] != mt['answers'] or (b['end'] == 'done' and b['count'] != mt['count']):
                 return '%s: all-compiled twin differs from the model (%d vs %d answers)' % (t, b['count'], mt['count'])
             if mn['err']:
-                # the world without raising predicates ends normally: the error is the exception of the (one) raising predicate
+                # the world without raising predicates ends normally: the model ends with the object XPy i of Python predicate i
+                if mn['exn'][0] != 'py' or mn['exn'][1] not in raisers:
+                    return '%s: MODEL ends with %s although the world without raising predicates ends normally' % (t, mn['exn'])
                 if not a['end'].startswith('raised'):
-                    return '%s: the model ends with the exception of the Python predicate after %d answers, the engine %s after %d' % (t, mn['count'], a['end'], a['count'])
+                    return '%s: the model ends with the exception of Python predicate %d after %d answers, the engine %s after %d' % (t, mn['exn'][1], mn['count'], a['end'], a['count'])
                 if a['answers'] != mn['answers'] or a['count'] != mn['count']:
                     return '%s: answers delivered before the exception differ from the model (%d vs %d)' % (t, a['count'], mn['count'])
-                if len(raisers) != 1 or a['same'] != raisers[0] or a['end'] != expected_end(case['native'][raisers[0]]):
-                    return '%s: the consumer got %s (object of predicate %s), the model the object raised by predicate %s' % (t, a['end'], a['same'], raisers)
+                if a['same'] != mn['exn'][1] or a['end'] != expected_end(case['native'][mn['exn'][1]]):
+                    return '%s: the consumer got %s (object of predicate %s), the model the object raised by predicate %d' % (t, a['end'], a['same'], mn['exn'][1])
                 continue
             if a['end'] not in ('done', 'cap'):
                 return '%s: engine with Python predicates %s after %d answers; the model finishes normally with %d' % (t, a['end'], a['count'], mn['count'])
@@ -776,7 +776,7 @@ def gen_mixed(rng):
     if rng.random() < 0.25:
         rules += [[name, row, ['true']] for row in mixed_rows(rng, ar, 1, 1)]      # the rules' script defines the key too
     native, ops = [], []
-    raiser = rng.random() < 0.15
+    raiser = rng.choice([0, 0, 0, 0, 0, 1, 1, 2])      # how many of the Python predicates raise
     for _ in range(rng.randrange(2, 6)):
         r = rng.random()
         if r < 0.4:
@@ -784,7 +784,7 @@ def gen_mixed(rng):
                     'yield': rng.choice(YIELDS), 'form': rng.choice(['arrays', 'nested']), 'raise': None,
                     'rows': mixed_rows(rng, ar, 0 if rng.random() < 0.1 else 1, 3 if ar else 2)}
             if raiser and spec['rows']:
-                raiser = False
+                raiser -= 1
                 spec['raise'] = rng.choice([0, 1, 1, 2])
                 spec['exc'] = rng.choice(EXC_CLASSES)
             native.append(spec)
